@@ -8,10 +8,22 @@
 //! Oracles on the implementation: membership at α*, α* ≤ αmax, safety at intermediate
 //! steps, tightness; PSD through the implementation plus an own Jacobi eigenvalue routine;
 //! exp/pow: the accepted point is feasible and the previous candidate was rejected.
+//!
+//! Round 3: the exp / pow / genpow `step_length` run against the model's own feasibility
+//! predicates (`nonsym.step_length`, `genpow.step_length`); the PSD cone's
+//! `step_length_psd_component`, `step_length` and `margins` run against the model with the
+//! LAPACK eigenvalues read through hooks (`psd.step_length_component`, `psd.step_length`,
+//! `psd.margins`, `psdcomp.*`), the matrix handed to LAPACK is compared entry by entry
+//! (`psd.scaled_direction`), and the spectral contract (the value LAPACK returned is the least
+//! eigenvalue of that matrix) is checked by the oracles with an own Jacobi routine;
+//! `composite.step_length_full` mixes all cone types, every cone run by its own model.
 use clarabel::solver::traits::Settings;
 use clarabel::solver::verif_hooks_variables::shift_to_cone_interior;
 use clarabel::solver::*;
 use clarabel::verif_hooks::cones::verif_hooks_expcone as hexp;
+use clarabel::verif_hooks::cones::verif_hooks_genpowcone as hgp;
+use clarabel::verif_hooks::cones::verif_hooks_psdcone as hpsd;
+use clarabel::verif_hooks::cones::verif_hooks_psdcone_step as hpstep;
 use clarabel::verif_hooks::cones::verif_hooks_powcone as hpow;
 use clarabel::verif_hooks::cones::verif_hooks_socone as hsoc;
 use clarabel::verif_hooks::cones::*;
@@ -824,6 +836,357 @@ fn oracle_psd_step_length(r: &Req, out: &str) -> Result<(), String> {
     check_psd_component(&r.fs("s"), &r.fs("ds"), n, r.f("amax"), o.f("as"), "s")
 }
 
+
+// ------------------------------------------------------------------ round 3: genpow / PSD with LAPACK values / full composite
+
+/// outcome of one `backtrack_search` against an arbitrary membership test (the oracle of
+/// `check_nonsym`, for any cone)
+fn check_backtrack_outcome(feas: &dyn Fn(&[f64]) -> bool, q: &[f64], dq: &[f64], amax: f64, step: f64, amin: f64, a: f64) -> Result<(), String> {
+    let w = |t: f64| -> Vec<f64> { q.iter().zip(dq).map(|(x, y)| 1.0 * x + t * y).collect() };
+    if !(a <= amax) || !(a >= 0.0) {
+        return Err(format!("step {} not in [0, αmax {}]", a, amax));
+    }
+    if a > 0.0 {
+        if !feas(&w(a)) {
+            return Err(format!("accepted step {} leads to an infeasible point", a));
+        }
+        if a < amin && a != amax {
+            return Err(format!("positive step {} below α_min {}", a, amin));
+        }
+        let mut c = amax;
+        let mut prev = None;
+        let mut guard = 0;
+        while c > a && guard < 10_000 {
+            prev = Some(c);
+            c *= step;
+            guard += 1;
+        }
+        if c != a {
+            return Err(format!("step {} is not of the form αmax·stepᵏ", a));
+        }
+        if let Some(p) = prev {
+            if feas(&w(p)) {
+                return Err(format!("step {} returned although the previous candidate {} is feasible", a, p));
+            }
+        }
+    } else {
+        let mut c = amax;
+        let mut guard = 0;
+        while !(c < amin) && guard < 10_000 {
+            if feas(&w(c)) {
+                return Err(format!("returned 0 although candidate {} is feasible", c));
+            }
+            c *= step;
+            guard += 1;
+        }
+    }
+    Ok(())
+}
+
+fn run_genpow_step_length(r: &Req) -> String {
+    let st = settings(0.99, r.f("bstep"), r.f("bamin"));
+    let mut k = GenPowerCone::<f64>::new(r.fs("al"), r.u("dim2"));
+    let (az, as_) = k.step_length(&r.fs("dz"), &r.fs("ds"), &r.fs("z"), &r.fs("s"), st.core(), r.f("amax"));
+    Line::out().f("az", az).f("as", as_).done()
+}
+/// own membership test of the generalised power cone (product form, independent of the
+/// implementation's exp/log form), with a relative safety band: `Some(b)` when decided
+fn genpow_member(al: &[f64], x: &[f64], dual: bool) -> Option<bool> {
+    let d1 = al.len();
+    if x[..d1].iter().any(|v| !(*v > 0.0)) {
+        return Some(false);
+    }
+    let mut lp = 0.0;
+    for i in 0..d1 {
+        let u = if dual { x[i] / al[i] } else { x[i] };
+        lp += 2.0 * al[i] * u.ln();
+    }
+    let phi = lp.exp();
+    let w2: f64 = x[d1..].iter().map(|v| v * v).sum();
+    let scale = phi.max(w2);
+    let band = 1e-9 * scale * (1.0 + lp.abs());
+    if phi - w2 > band {
+        Some(true)
+    } else if phi - w2 < -band {
+        Some(false)
+    } else {
+        None
+    }
+}
+fn oracle_genpow_step_length(r: &Req, out: &str) -> Result<(), String> {
+    let o = resp(out)?;
+    let al = r.fs("al");
+    let k = GenPowerCone::<f64>::new(al.clone(), r.u("dim2"));
+    let (amax, step, amin) = (r.f("amax"), r.f("bstep"), r.f("bamin"));
+    let fd = |p: &[f64]| hgp::is_dual_feasible(&k, p);
+    let fp = |p: &[f64]| hgp::is_primal_feasible(&k, p);
+    check_backtrack_outcome(&fd, &r.fs("z"), &r.fs("dz"), amax, step, amin, o.f("az")).map_err(|e| format!("dual: {}", e))?;
+    check_backtrack_outcome(&fp, &r.fs("s"), &r.fs("ds"), amax, step, amin, o.f("as")).map_err(|e| format!("primal: {}", e))?;
+    // membership in the cone itself (own product-form test), when clearly decided
+    for (q, dq, a, dual, w) in [(r.fs("z"), r.fs("dz"), o.f("az"), true, "dual"), (r.fs("s"), r.fs("ds"), o.f("as"), false, "primal")] {
+        if a > 0.0 {
+            let p = axpy(&q, a, &dq);
+            if genpow_member(&al, &p, dual) == Some(false) {
+                return Err(format!("{}: the point after the step {} is outside the cone", w, a));
+            }
+        }
+    }
+    Ok(())
+}
+
+/// a PSD cone of order `n` scaled at `(s, z)`
+fn psd_cone_at(n: usize, s: &[f64], z: &[f64]) -> (PSDTriangleCone<f64>, bool) {
+    let mut k = PSDTriangleCone::<f64>::new(n);
+    let ok = k.update_scaling(s, z, 1.0, ScalingStrategy::PrimalDual);
+    (k, ok)
+}
+fn run_psd_component(r: &Req) -> String {
+    let (mut k, ok) = psd_cone_at(r.u("n"), &r.fs("s"), &r.fs("z"));
+    if !ok {
+        return "update_scaling=false".into();
+    }
+    let (a, _g) = hpsd::step_length_component_gamma(&mut k, &r.fs("d"), r.f("amax"));
+    Line::out().f("a", a).done()
+}
+/// dense symmetric matrix Λ^{-1/2}·mat(d)·Λ^{-1/2}, computed independently of `lrscale`
+fn scaled_dir_own(n: usize, d: &[f64], l: &[f64]) -> Vec<Vec<f64>> {
+    let mut m = svec_to_mat(d, n);
+    for i in 0..n {
+        for j in 0..n {
+            m[i][j] = l[i] * m[i][j] * l[j];
+        }
+    }
+    m
+}
+/// spectral contract + safety/tightness of the formula, on the implementation's values
+fn oracle_psd_component(r: &Req, out: &str) -> Result<(), String> {
+    let o = resp(out)?;
+    if !o.has("a") {
+        return Err(format!("implementation returned {}", out));
+    }
+    let n = r.u("n");
+    let (k, _) = psd_cone_at(n, &r.fs("s"), &r.fs("z"));
+    let (d, amax, a) = (r.fs("d"), r.f("amax"), o.f("a"));
+    if r.u("gok") == 0 {
+        return if a == 0.0 { Ok(()) } else { Err(format!("LAPACK failed but the step is {} (must be 0)", a)) };
+    }
+    if d.iter().any(|v| !v.is_finite()) {
+        // outside the property's quantifier (a non-finite "direction"); correspondence only
+        return Ok(());
+    }
+    let l = hpsd::Λisqrt(&k).to_vec();
+    let lam = hpsd::λ(&k).to_vec();
+    for i in 0..n {
+        if !(l[i] > 0.0) || (l[i] * l[i] * lam[i] - 1.0).abs() > 1e-12 {
+            return Err(format!("Λisqrt[{}]²·λ[{}] = {} is not 1", i, i, l[i] * l[i] * lam[i]));
+        }
+    }
+    let m = scaled_dir_own(n, &d, &l);
+    let e = jacobi_eigs(&m);
+    let lmin = e.iter().cloned().fold(f64::INFINITY, f64::min);
+    let scale = e.iter().map(|v| v.abs()).fold(0.0, f64::max).max(f64::MIN_POSITIVE);
+    let g = r.f("gamma");
+    if (g - lmin).abs() > 1e-11 * scale * (n as f64) {
+        return Err(format!("spectral contract: LAPACK's least eigenvalue {:e} vs own Jacobi value {:e} (scale {:e})", g, lmin, scale));
+    }
+    if !(a >= 0.0) || !(a <= amax) {
+        return Err(format!("step {} not in [0, αmax {}]", a, amax));
+    }
+    // safety: I + t·M ⪰ 0 for t ≤ α;  tightness: α < αmax ⇒ 1 + α·λmin ≈ 0
+    let tol = 1e-9 * (1.0 + a * scale);
+    if 1.0 + a * lmin < -tol {
+        return Err(format!("unsafe: 1 + α·λmin = {:e} < 0 at α = {} (λmin {:e})", 1.0 + a * lmin, a, lmin));
+    }
+    if a < amax && (1.0 + a * lmin).abs() > tol {
+        return Err(format!("not tight: α = {} < αmax = {} but 1 + α·λmin = {:e}", a, amax, 1.0 + a * lmin));
+    }
+    if a < amax && !(lmin < 0.0) {
+        return Err(format!("step {} shortened although λmin = {:e} ≥ 0", a, lmin));
+    }
+    Ok(())
+}
+fn run_psd_scaled_direction(r: &Req) -> String {
+    let (mut k, ok) = psd_cone_at(r.u("n"), &r.fs("s"), &r.fs("z"));
+    if !ok {
+        return "update_scaling=false".into();
+    }
+    let m = hpstep::scaled_direction_matrix(&mut k, &r.fs("d"));
+    Line::out().fs("m", &m).done()
+}
+fn oracle_psd_scaled_direction(r: &Req, out: &str) -> Result<(), String> {
+    let o = resp(out)?;
+    if !o.has("m") {
+        return Err(format!("implementation returned {}", out));
+    }
+    let n = r.u("n");
+    let m = o.fs("m");
+    let own = scaled_dir_own(n, &r.fs("d"), &r.fs("lisqrt"));
+    let scale = own.iter().flatten().map(|v| v.abs()).fold(0.0, f64::max).max(f64::MIN_POSITIVE);
+    for i in 0..n {
+        for j in 0..n {
+            if (m[i + n * j] - own[i][j]).abs() > 8.0 * EPS * scale {
+                return Err(format!("entry ({},{}) = {:e} is not Λisqrt[i]·mat(d)[i,j]·Λisqrt[j] = {:e}", i, j, m[i + n * j], own[i][j]));
+            }
+        }
+    }
+    Ok(())
+}
+fn run_psd_margins(r: &Req) -> String {
+    let mut k = PSDTriangleCone::<f64>::new(r.u("n"));
+    let mut z = r.fs("z");
+    let (a, b) = k.margins(&mut z, pd(r.b("primal")));
+    Line::out().f("a", a).f("b", b).done()
+}
+fn oracle_psd_margins(r: &Req, out: &str) -> Result<(), String> {
+    let o = resp(out)?;
+    let n = r.u("n");
+    let z = r.fs("z");
+    if n == 0 {
+        return if o.f("a") == f64::MAX && o.f("b") == 0.0 { Ok(()) } else { Err("empty cone: margins must be (max_value, 0)".into()) };
+    }
+    let e = jacobi_eigs(&svec_to_mat(&z, n));
+    let a = e.iter().cloned().fold(f64::INFINITY, f64::min);
+    let b: f64 = e.iter().map(|v| v.max(0.0)).sum();
+    let scale = nrm(&z).max(f64::MIN_POSITIVE);
+    if (o.f("a") - a).abs() > 1e-12 * scale * (n as f64) {
+        return Err(format!("minimum margin {} expected λmin = {}", o.f("a"), a));
+    }
+    if (o.f("b") - b).abs() > 1e-12 * scale * (z.len() as f64) {
+        return Err(format!("total positive margin {} expected {}", o.f("b"), b));
+    }
+    // the recorded eigenvalues are the eigenvalues of mat(z) (spectral contract)
+    let mut rec = r.fs("eigs");
+    let mut own = e.clone();
+    rec.sort_by(|x, y| x.partial_cmp(y).unwrap());
+    own.sort_by(|x, y| x.partial_cmp(y).unwrap());
+    if rec.len() != own.len() {
+        return Err("number of eigenvalues".into());
+    }
+    for (x, y) in rec.iter().zip(&own) {
+        if (x - y).abs() > 1e-11 * scale * (n as f64) {
+            return Err(format!("spectral contract: LAPACK eigenvalue {:e} vs own {:e}", x, y));
+        }
+    }
+    Ok(())
+}
+
+/// kinds as `cone_types` plus 5 = generalised power cone (exponents from `gpal`/`gpd1`)
+fn cone_types_full(r: &Req) -> Vec<SupportedConeT<f64>> {
+    let kinds = r.us("kinds");
+    let dims = r.us("dims");
+    let alphas = r.fs("alphas");
+    let gpal = r.fs("gpal");
+    let gpd1 = r.us("gpd1");
+    let (mut ia, mut ig, mut iga) = (0, 0, 0);
+    kinds
+        .iter()
+        .zip(&dims)
+        .map(|(&k, &n)| match k {
+            0 => ZeroConeT(n),
+            1 => NonnegativeConeT(n),
+            2 => SecondOrderConeT(n),
+            3 => {
+                let a = alphas[ia];
+                ia += 1;
+                if a < 0.0 { ExponentialConeT() } else { PowerConeT(a) }
+            }
+            5 => {
+                let d1 = gpd1[ig];
+                ig += 1;
+                let al = gpal[iga..iga + d1].to_vec();
+                iga += d1;
+                GenPowerConeT(al, n - d1)
+            }
+            _ => PSDTriangleConeT(n),
+        })
+        .collect()
+}
+fn run_composite_step_full(r: &Req) -> String {
+    let mut k = CompositeCone::<f64>::new(&cone_types_full(r));
+    let st = settings(r.f("msf"), r.f("bstep"), r.f("bamin"));
+    let (z, s) = (r.fs("z"), r.fs("s"));
+    if !k.update_scaling(&s, &z, 1.0, ScalingStrategy::Dual) {
+        return "update_scaling=false".into();
+    }
+    let (az, as_) = k.step_length(&r.fs("dz"), &r.fs("ds"), &z, &s, st.core(), r.f("amax"));
+    Line::out().f("az", az).f("as", as_).done()
+}
+fn oracle_composite_step_full(r: &Req, out: &str) -> Result<(), String> {
+    let o = resp(out)?;
+    if !o.has("az") {
+        return Err(format!("implementation returned {}", out));
+    }
+    let (az, as_) = (o.f("az"), o.f("as"));
+    let (amax, msf) = (r.f("amax"), r.f("msf"));
+    if az != as_ {
+        return Err("composite step lengths differ".into());
+    }
+    let a = az;
+    if !(a <= amax) || !(a >= 0.0) {
+        return Err(format!("step {} not in [0, αmax {}]", a, amax));
+    }
+    let kinds = r.us("kinds");
+    let dims = r.us("dims");
+    if kinds.iter().any(|&k| k == 3 || k == 5) && !(a <= msf) {
+        return Err(format!("step {} exceeds max_step_fraction {} with a nonsymmetric cone present", a, msf));
+    }
+    let (z, s, dz, ds) = (r.fs("z"), r.fs("s"), r.fs("dz"), r.fs("ds"));
+    let alphas = r.fs("alphas");
+    let gpal = r.fs("gpal");
+    let gpd1 = r.us("gpd1");
+    let (mut ia, mut ig, mut iga, mut start) = (0, 0, 0, 0);
+    for (&k, &n) in kinds.iter().zip(&dims) {
+        let len = if k == 4 { n * (n + 1) / 2 } else { n };
+        let rg = start..start + len;
+        start += len;
+        match k {
+            1 => {
+                check_nn_component(&z[rg.clone()], &dz[rg.clone()], amax.max(a), a, "nn z", false)?;
+                check_nn_component(&s[rg.clone()], &ds[rg.clone()], amax.max(a), a, "nn s", false)?;
+            }
+            3 => {
+                let al = alphas[ia];
+                ia += 1;
+                if a > 0.0 {
+                    if feas(al, false, &z[rg.clone()]) && !feas(al, false, &axpy(&z[rg.clone()], a, &dz[rg.clone()])) {
+                        return Err(format!("nonsymmetric cone: z + {}·dz is not dual feasible", a));
+                    }
+                    if feas(al, true, &s[rg.clone()]) && !feas(al, true, &axpy(&s[rg.clone()], a, &ds[rg.clone()])) {
+                        return Err(format!("nonsymmetric cone: s + {}·ds is not primal feasible", a));
+                    }
+                }
+            }
+            4 => {
+                // own eigenvalues: the composite step keeps both PSD blocks in the cone
+                for (x, y, w) in [(&z[rg.clone()], &dz[rg.clone()], "psd z"), (&s[rg.clone()], &ds[rg.clone()], "psd s")] {
+                    let (l0, m0) = min_eig(x, n);
+                    let tol = 1e-12 * (m0 / l0).max(1.0);
+                    let p = axpy(x, a, y);
+                    let (lmin, lmax) = min_eig(&p, n);
+                    if lmin < -tol * lmax.max(m0) {
+                        return Err(format!("{}: λmin = {:e} after the composite step {}", w, lmin, a));
+                    }
+                }
+            }
+            5 => {
+                let d1 = gpd1[ig];
+                ig += 1;
+                let al = gpal[iga..iga + d1].to_vec();
+                iga += d1;
+                if a > 0.0 {
+                    for (x, y, dual, w) in [(&z[rg.clone()], &dz[rg.clone()], true, "dual"), (&s[rg.clone()], &ds[rg.clone()], false, "primal")] {
+                        if genpow_member(&al, x, dual) == Some(true) && genpow_member(&al, &axpy(x, a, y), dual) == Some(false) {
+                            return Err(format!("genpow cone ({}): the point after the composite step {} is outside the cone", w, a));
+                        }
+                    }
+                }
+            }
+            _ => {}
+        }
+    }
+    Ok(())
+}
+
 // ------------------------------------------------------------------ channel table
 
 macro_rules! ch {
@@ -851,15 +1214,20 @@ fn channels() -> Vec<Channel> {
         ch!("soc.unit_initialization", e, run_soc_unit, Some(oracle_unit), true, "SecondOrderCone::unit_initialization", "Soc.unitInitialization"),
         ch!("psd.unit_initialization", e, run_psd_unit, Some(oracle_unit), true, "PSDTriangleCone::unit_initialization", "PsdIndex.unitInitialization"),
         ch!("backtrack.search", e, run_backtrack, Some(oracle_backtrack), true, "nonsymmetric_common::backtrack_search", "Backtrack.backtrackSearch / C15.backtrack_*"),
-        ch!("nonsym.step_length", e, run_nonsym_step_length, Some(oracle_nonsym_step_length), false, "ExponentialCone/PowerCone::step_length", "-"),
+        ch!("nonsym.step_length", e, run_nonsym_step_length, Some(oracle_nonsym_step_length), true, "ExponentialCone/PowerCone::step_length", "Exp.stepLength / Pow.stepLength / C15.exp_step_* pow_step_*"),
+        ch!("genpow.step_length", e, run_genpow_step_length, Some(oracle_genpow_step_length), true, "GenPowerCone::step_length", "GenPow.stepLength / C15.genpow_step_*"),
+        ch!("psd.step_length_component", e, run_psd_component, Some(oracle_psd_component), true, "psdtrianglecone::step_length_psd_component (γ from LAPACK)", "PsdStep.stepLengthPsdComponent / C15.psd_step_component_*"),
+        ch!("psd.scaled_direction", e, run_psd_scaled_direction, Some(oracle_psd_scaled_direction), true, "svec_to_mat + lrscale inside step_length_psd_component", "PsdStep.scaledDir"),
+        ch!("psd.margins", e, run_psd_margins, Some(oracle_psd_margins), true, "PSDTriangleCone::margins (eigenvalues from LAPACK)", "PsdStep.margins / C15.psd_margins_formula"),
+        ch!("composite.step_length_full", e, run_composite_step_full, Some(oracle_composite_step_full), true, "CompositeCone::step_length over all cone types", "Composite.stepLength / C15.composite_step_general"),
         ch!("composite.step_length", e, run_composite_step_length, Some(oracle_composite_step_length), true, "CompositeCone::step_length", "Composite.stepLength / C15.composite_*"),
         ch!("composite.margins", e, run_composite_margins, Some(oracle_composite_margins), true, "CompositeCone::margins", "Composite.margins"),
         ch!("composite.scaled_unit_shift", e, run_composite_shift, None, true, "CompositeCone::scaled_unit_shift", "Composite.scaledUnitShift"),
         ch!("composite.unit_initialization", e, run_composite_unit, None, true, "CompositeCone::unit_initialization", "Composite.unitInitialization"),
         ch!("composite.shift_to_cone_interior", e, run_shift_to_interior, Some(oracle_shift_to_interior), true, "variables::_shift_to_cone_interior", "Composite.shiftToConeInterior / C15.shift_margin_pos"),
-        ch!("psd.step_length", e, run_psd_step_length, Some(oracle_psd_step_length), false, "PSDTriangleCone::step_length (LAPACK not modelled)", "-"),
-        ch!("psdcomp.margins", e, run_composite_margins, Some(oracle_composite_margins), false, "PSDTriangleCone::margins via CompositeCone (LAPACK not modelled)", "-"),
-        ch!("psdcomp.shift_to_cone_interior", e, run_shift_to_interior, Some(oracle_shift_to_interior), false, "_shift_to_cone_interior with PSD blocks (LAPACK not modelled)", "-"),
+        ch!("psd.step_length", e, run_psd_step_length, Some(oracle_psd_step_length), true, "PSDTriangleCone::step_length (γz, γs from LAPACK)", "PsdStep.stepLength / C15.psd_step_length_components"),
+        ch!("psdcomp.margins", e, run_composite_margins, Some(oracle_composite_margins), true, "PSDTriangleCone::margins via CompositeCone (eigenvalues from LAPACK)", "Composite.marginsE"),
+        ch!("psdcomp.shift_to_cone_interior", e, run_shift_to_interior, Some(oracle_shift_to_interior), true, "_shift_to_cone_interior with PSD blocks (eigenvalues from LAPACK)", "Composite.shiftToConeInteriorE / C15.shift_to_cone_interior_margin_psd"),
     ]
 }
 
@@ -1341,8 +1709,22 @@ fn gen_composite_shift(s: &mut Session) {
     let a = if small { s.rng.smallint(3) } else { s.rng.normal() * mags(&mut s.rng) };
     let zs: Vec<f64> = (0..len).map(|_| s.rng.normal()).collect();
     if has_psd {
-        s.submit(Line::new("psdcomp.margins").us("kinds", &kinds).us("dims", &dims).fs("z", &z).b("primal", primal).done());
-        s.submit(Line::new("psdcomp.shift_to_cone_interior").us("kinds", &kinds).us("dims", &dims).fs("z", &z).b("primal", primal).done());
+        // eigenvalues LAPACK returns for every PSD block (one standalone cone per block:
+        // the composite hands exactly these slices to the same code)
+        let (eigs, neig, eok) = psd_block_eigs(&kinds, &dims, &z, primal);
+        s.submit(Line::new("psdcomp.margins").us("kinds", &kinds).us("dims", &dims).fs("z", &z).b("primal", primal).fs("eigs", &eigs).us("neig", &neig).us("eok", &eok).done());
+        s.submit(Line::new("psdcomp.shift_to_cone_interior").us("kinds", &kinds).us("dims", &dims).fs("z", &z).b("primal", primal).fs("eigs", &eigs).us("neig", &neig).us("eok", &eok).done());
+        // every PSD block on its own
+        let mut start = 0;
+        let mut ie = 0;
+        for (i, (&k, &n)) in kinds.iter().zip(&dims).enumerate() {
+            let len = if k == 4 { n * (n + 1) / 2 } else { n };
+            if k == 4 {
+                s.submit(Line::new("psd.margins").u("n", n).fs("z", &z[start..start + len]).b("primal", primal).fs("eigs", &eigs[ie..ie + neig[i]]).u("eok", eok[i]).done());
+            }
+            ie += neig[i];
+            start += len;
+        }
     } else {
         s.submit(Line::new("composite.margins").us("kinds", &kinds).us("dims", &dims).fs("z", &z).b("primal", primal).done());
         s.submit(Line::new("composite.shift_to_cone_interior").us("kinds", &kinds).us("dims", &dims).fs("z", &z).b("primal", primal).done());
@@ -1383,7 +1765,276 @@ fn gen_psd_step(s: &mut Session) {
     let dz = dir(&mut s.rng, &z, m1);
     let ds = dir(&mut s.rng, &sv, m2);
     let amax = amax_of(&mut s.rng);
-    s.submit(Line::new("psd.step_length").u("n", n).fs("dz", &dz).fs("ds", &ds).fs("z", &z).fs("s", &sv).f("amax", amax).done());
+    let rec = psd_record(n, &sv, &z, &dz, &ds, amax);
+    s.submit(
+        Line::new("psd.step_length").u("n", n).fs("dz", &dz).fs("ds", &ds).fs("z", &z).fs("s", &sv).f("amax", amax)
+            .b("usok", rec.usok).fs("R", &rec.r).fs("Rinv", &rec.rinv).f("gz", rec.gz).f("gs", rec.gs).b("gzok", rec.gzok).b("gsok", rec.gsok).done(),
+    );
+    if rec.usok {
+        for (d, g, ok) in [(&rec.dzw, rec.gz, rec.gzok), (&rec.dsw, rec.gs, rec.gsok)] {
+            s.submit(Line::new("psd.step_length_component").u("n", n).fs("z", &z).fs("s", &sv).fs("d", d).f("gamma", g).b("gok", ok).f("amax", amax).done());
+            s.submit(Line::new("psd.scaled_direction").u("n", n).fs("z", &z).fs("s", &sv).fs("d", d).fs("lisqrt", &rec.lisqrt).done());
+        }
+        // a direction given directly in the scaled space (all branches of the formula)
+        let mut d: Vec<f64> = match s.rng.below(3) {
+            0 => psd_point(&mut s.rng, n, 0.1, 1.0),
+            1 => psd_point(&mut s.rng, n, 0.1, 1.0).iter().map(|v| -v * 10f64.powf(s.rng.uniform(-2.0, 2.0))).collect(),
+            _ => (0..len).map(|_| s.rng.normal() * 10f64.powf(s.rng.uniform(-2.0, 2.0))).collect(),
+        };
+        if s.rng.bool(0.03) {
+            // numerical breakdown: a non-finite direction (LAPACK reports an error)
+            let i = s.rng.below(len);
+            d[i] = *s.rng.choose(&[f64::NAN, f64::INFINITY]);
+        }
+        let (mut k, _) = psd_cone_at(n, &sv, &z);
+        let ok = hpstep::eigvals_ok(&mut k, &d);
+        let (_, g) = hpsd::step_length_component_gamma(&mut k, &d, amax);
+        let g = if ok { g } else { 0.0 };
+        let finite = d.iter().all(|v| v.is_finite());
+        let out = s.submit(Line::new("psd.step_length_component").u("n", n).fs("z", &z).fs("s", &sv).fs("d", &d).f("gamma", g).b("gok", ok).f("amax", amax).done());
+        if let Ok(o) = resp(&out) {
+            if o.has("a") {
+                s.count(if !ok { "psd-component:lapack-failure" } else if !finite { if o.f("a") == amax { "psd-component:non-finite-direction, LAPACK ok, full step returned" } else { "psd-component:non-finite-direction, LAPACK ok, shortened" } } else if o.f("a") < amax { "psd-component:shortened(boundary)" } else { "psd-component:full-step" });
+            }
+        }
+    }
+}
+
+struct PsdRec {
+    usok: bool,
+    r: Vec<f64>,
+    rinv: Vec<f64>,
+    lisqrt: Vec<f64>,
+    dzw: Vec<f64>,
+    dsw: Vec<f64>,
+    gz: f64,
+    gs: f64,
+    gzok: bool,
+    gsok: bool,
+}
+/// what LAPACK contributes to `PSDTriangleCone::step_length` at `(s, z)` along `(dz, ds)`:
+/// the scaling factors and the two least eigenvalues (read through the hooks)
+fn psd_record(n: usize, sv: &[f64], z: &[f64], dz: &[f64], ds: &[f64], amax: f64) -> PsdRec {
+    let (mut k, usok) = psd_cone_at(n, sv, z);
+    let len = n * (n + 1) / 2;
+    if !usok {
+        return PsdRec { usok, r: vec![], rinv: vec![], lisqrt: vec![], dzw: vec![], dsw: vec![], gz: 0.0, gs: 0.0, gzok: false, gsok: false };
+    }
+    let mut dzw = vec![0.0; len];
+    k.mul_W(hsoc::matrix_shape(false), &mut dzw, dz, 1.0, 0.0);
+    let gzok = hpstep::eigvals_ok(&mut k, &dzw);
+    let (_, gz) = hpsd::step_length_component_gamma(&mut k, &dzw, amax);
+    let mut dsw = vec![0.0; len];
+    k.mul_Winv(hsoc::matrix_shape(true), &mut dsw, ds, 1.0, 0.0);
+    let gsok = hpstep::eigvals_ok(&mut k, &dsw);
+    let (_, gs) = hpsd::step_length_component_gamma(&mut k, &dsw, amax);
+    PsdRec {
+        usok,
+        r: hpsd::R(&k).to_vec(),
+        rinv: hpsd::Rinv(&k).to_vec(),
+        lisqrt: hpsd::Λisqrt(&k).to_vec(),
+        dzw,
+        dsw,
+        gz: if gzok { gz } else { 0.0 },
+        gs: if gsok { gs } else { 0.0 },
+        gzok,
+        gsok,
+    }
+}
+/// flat eigenvalue encoding of a composite request: `neig[k]` values for cone `k`
+fn psd_block_eigs(kinds: &[usize], dims: &[usize], z: &[f64], primal: bool) -> (Vec<f64>, Vec<usize>, Vec<usize>) {
+    let (mut eigs, mut neig, mut eok) = (vec![], vec![], vec![]);
+    let mut start = 0;
+    for (&k, &n) in kinds.iter().zip(dims) {
+        let len = if k == 4 { n * (n + 1) / 2 } else { n };
+        if k == 4 {
+            let mut kk = PSDTriangleCone::<f64>::new(n);
+            let mut blk = z[start..start + len].to_vec();
+            let (_, e) = hpstep::margins_with_eigs(&mut kk, &mut blk, pd(primal));
+            neig.push(e.len());
+            eigs.extend(e);
+            eok.push(1);
+        } else {
+            neig.push(0);
+            eok.push(1);
+        }
+        start += len;
+    }
+    (eigs, neig, eok)
+}
+
+fn gen_alpha_vec(rng: &mut Rng, d1: usize) -> Vec<f64> {
+    loop {
+        let mut a: Vec<f64> = (0..d1).map(|_| rng.uniform(0.05, 1.0)).collect();
+        let sum: f64 = a.iter().sum();
+        for v in a.iter_mut() {
+            *v /= sum;
+        }
+        if d1 > 1 {
+            let head: f64 = a[..d1 - 1].iter().fold(0.0, |acc, x| acc + x);
+            a[d1 - 1] = 1.0 - head;
+        } else {
+            a[0] = 1.0;
+        }
+        let sum = a.iter().fold(0.0, |acc, x| acc + x);
+        if a.iter().all(|&v| v > 0.0) && (1.0 - sum).abs() < EPS * d1 as f64 * 0.5 {
+            return a;
+        }
+    }
+}
+/// interior point of the generalised power cone (primal) or of its dual
+fn genpow_point(rng: &mut Rng, al: &[f64], d2: usize, dual: bool) -> Vec<f64> {
+    let k = GenPowerCone::<f64>::new(al.to_vec(), d2);
+    for _ in 0..200 {
+        let u: Vec<f64> = al.iter().map(|_| 10f64.powf(rng.uniform(-1.0, 1.0))).collect();
+        let bound: f64 = u.iter().zip(al).map(|(x, a)| if dual { (x / a).powf(*a) } else { x.powf(*a) }).product();
+        let w: Vec<f64> = (0..d2).map(|_| rng.normal()).collect();
+        let nw = nrm(&w).max(f64::MIN_POSITIVE);
+        let f = bound * rng.uniform(0.0, 0.95) / nw;
+        let mut p = u.clone();
+        p.extend(w.iter().map(|v| v * f));
+        let ok = if dual { hgp::is_dual_feasible(&k, &p) } else { hgp::is_primal_feasible(&k, &p) };
+        if ok {
+            return p;
+        }
+    }
+    let mut p: Vec<f64> = al.iter().map(|a| (1.0 + a).sqrt()).collect();
+    p.extend(vec![0.0; d2]);
+    p
+}
+fn any_dir(rng: &mut Rng, x: &[f64]) -> Vec<f64> {
+    match rng.below(5) {
+        0 => x.iter().map(|v| -v * (1.0 + 0.2 * rng.normal())).collect(),
+        1 => vec![0.0; x.len()],
+        2 => (0..x.len()).map(|_| rng.normal() * 10.0).collect(),
+        3 => x.iter().map(|v| -v * rng.uniform(0.0, 2.0)).collect(),
+        _ => (0..x.len()).map(|_| rng.normal()).collect(),
+    }
+}
+fn gen_genpow(s: &mut Session) {
+    let d1 = 1 + s.rng.below(4);
+    let d2 = 1 + s.rng.below(3);
+    let al = gen_alpha_vec(&mut s.rng, d1);
+    let z = genpow_point(&mut s.rng, &al, d2, true);
+    let sv = genpow_point(&mut s.rng, &al, d2, false);
+    let dz = any_dir(&mut s.rng, &z);
+    let ds = any_dir(&mut s.rng, &sv);
+    let step = *s.rng.choose(&[0.8, 0.5, 0.9]);
+    let amin = *s.rng.choose(&[1e-4, 1e-2, 0.3]);
+    let amax = amax_of(&mut s.rng);
+    let out = s.submit(Line::new("genpow.step_length").fs("al", &al).u("dim2", d2).fs("dz", &dz).fs("ds", &ds).fs("z", &z).fs("s", &sv).f("amax", amax).f("bstep", step).f("bamin", amin).done());
+    if let Ok(o) = resp(&out) {
+        for a in [o.f("az"), o.f("as")] {
+            s.count(if a == 0.0 { "genpow:gave-up(0)" } else if a == amax { "genpow:first-candidate" } else { "genpow:backtracked" });
+        }
+    }
+}
+
+/// composite of every cone type, every cone run by its own model
+fn gen_composite_full(s: &mut Session) {
+    let ncones = 1 + s.rng.below(5);
+    let (mut kinds, mut dims, mut alphas, mut gpal, mut gpd1) = (vec![], vec![], vec![], vec![], vec![]);
+    let (mut z, mut sv, mut dz, mut ds) = (vec![], vec![], vec![], vec![]);
+    let (mut psdg, mut psdok): (Vec<f64>, Vec<usize>) = (vec![], vec![]);
+    let amax = amax_of(&mut s.rng);
+    for _ in 0..ncones {
+        match *s.rng.choose(&[0usize, 1, 2, 3, 3, 4, 4, 5]) {
+            0 => {
+                let n = s.rng.below(3);
+                kinds.push(0);
+                dims.push(n);
+                for _ in 0..n {
+                    z.push(s.rng.normal());
+                    sv.push(0.0);
+                    dz.push(s.rng.normal());
+                    ds.push(s.rng.normal());
+                }
+            }
+            1 => {
+                let n = 1 + s.rng.below(3);
+                kinds.push(1);
+                dims.push(n);
+                for _ in 0..n {
+                    let (a, b) = (10f64.powf(s.rng.uniform(-2.0, 2.0)), 10f64.powf(s.rng.uniform(-2.0, 2.0)));
+                    z.push(a);
+                    sv.push(b);
+                    dz.push(if s.rng.bool(0.3) { -a * s.rng.uniform(0.5, 3.0) } else { s.rng.normal() });
+                    ds.push(if s.rng.bool(0.3) { -b * s.rng.uniform(0.5, 3.0) } else { s.rng.normal() });
+                }
+            }
+            2 => {
+                let n = 2 + s.rng.below(4);
+                kinds.push(2);
+                dims.push(n);
+                let d = *s.rng.choose(&[1e-3, 0.1, 1.0]);
+                let a = soc_interior(&mut s.rng, n, d, 1.0);
+                let b = soc_interior(&mut s.rng, n, d, 1.0);
+                dz.extend(soc_direction(&mut s.rng, &a));
+                ds.extend(soc_direction(&mut s.rng, &b));
+                z.extend(a);
+                sv.extend(b);
+            }
+            3 => {
+                let al = if s.rng.bool(0.5) { -1.0 } else { *s.rng.choose(&[0.5, 0.3, 0.9]) };
+                kinds.push(3);
+                dims.push(3);
+                alphas.push(al);
+                let a = nonsym_point(&mut s.rng, al, false);
+                let b = nonsym_point(&mut s.rng, al, true);
+                dz.extend(nonsym_dir(&mut s.rng, &a));
+                ds.extend(nonsym_dir(&mut s.rng, &b));
+                z.extend(a);
+                sv.extend(b);
+            }
+            4 => {
+                let n = 1 + s.rng.below(3);
+                let len = n * (n + 1) / 2;
+                kinds.push(4);
+                dims.push(n);
+                let sp = *s.rng.choose(&[1.0, 0.3]);
+                let a = psd_point(&mut s.rng, n, sp, 1.0);
+                let b = psd_point(&mut s.rng, n, sp, 1.0);
+                let da: Vec<f64> = if s.rng.bool(0.4) { a.iter().map(|v| -v * s.rng.uniform(0.5, 3.0)).collect() } else { (0..len).map(|_| s.rng.normal()).collect() };
+                let db: Vec<f64> = if s.rng.bool(0.4) { b.iter().map(|v| -v * s.rng.uniform(0.5, 3.0)).collect() } else { (0..len).map(|_| s.rng.normal()).collect() };
+                let rec = psd_record(n, &b, &a, &da, &db, amax);
+                psdg.push(rec.gz);
+                psdg.push(rec.gs);
+                psdok.push(rec.gzok as usize);
+                psdok.push(rec.gsok as usize);
+                z.extend(a);
+                sv.extend(b);
+                dz.extend(da);
+                ds.extend(db);
+            }
+            _ => {
+                let d1 = 1 + s.rng.below(3);
+                let d2 = 1 + s.rng.below(2);
+                let al = gen_alpha_vec(&mut s.rng, d1);
+                kinds.push(5);
+                dims.push(d1 + d2);
+                let a = genpow_point(&mut s.rng, &al, d2, true);
+                let b = genpow_point(&mut s.rng, &al, d2, false);
+                dz.extend(any_dir(&mut s.rng, &a));
+                ds.extend(any_dir(&mut s.rng, &b));
+                z.extend(a);
+                sv.extend(b);
+                gpd1.push(d1);
+                gpal.extend(al);
+            }
+        }
+    }
+    let msf = *s.rng.choose(&[0.99, 0.9, 0.5, 0.999]);
+    let (bstep, bamin) = (*s.rng.choose(&[0.8, 0.5]), *s.rng.choose(&[1e-4, 1e-2]));
+    let line = Line::new("composite.step_length_full").us("kinds", &kinds).us("dims", &dims).fs("alphas", &alphas)
+        .fs("gpal", &gpal).us("gpd1", &gpd1).fs("psdg", &psdg).us("psdok", &psdok)
+        .fs("dz", &dz).fs("ds", &ds).fs("z", &z).fs("s", &sv).f("amax", amax).f("msf", msf)
+        .f("bstep", bstep).f("bamin", bamin).done();
+    if s.run_impl(&line).starts_with("update_scaling=false") {
+        s.count("composite-full:update_scaling=false (skipped)");
+        return;
+    }
+    s.count(if kinds.iter().any(|&k| k == 3 || k == 5) { "composite-full:with-nonsymmetric" } else { "composite-full:symmetric-only" });
+    s.submit(line);
 }
 
 fn generate(s: &mut Session) {
@@ -1413,6 +2064,12 @@ fn generate(s: &mut Session) {
     }
     for _ in 0..s.budget(1200, 6000) {
         gen_psd_step(s);
+    }
+    for _ in 0..s.budget(2000, 20000) {
+        gen_genpow(s);
+    }
+    for _ in 0..s.budget(2500, 25000) {
+        gen_composite_full(s);
     }
 }
 
